@@ -571,3 +571,89 @@ func mavenSchema(arg sx.V) sx.V {
 	}
 	return sx.L(sx.Sym("ok"), sx.L(pkgs...))
 }
+
+// maven_seq: (universe (root...)) -> ((ref seq table passes)... ) (concurrent-differences...)
+// One resolver (over one client) resolves the roots one after the other, as a
+// caller that keeps a Resolver does; ref is the observable of a FRESH resolver
+// for the same root, seq the observable of the shared resolver, table/passes
+// the calls recorded during the shared run (for the oracle).  Then the same
+// roots are resolved again by goroutines sharing one more resolver: every
+// result that differs from ref is listed as (index obs).  A Go fatal error
+// (concurrent map writes) kills the process; the driver survives that.
+func init() { register("maven_seq", mavenSeq) }
+
+// switchClient lets the shared resolver keep one client value while the
+// recording underneath is renewed for every root.
+type switchClient struct{ cur resolve.Client }
+
+func (s *switchClient) Version(ctx context.Context, vk resolve.VersionKey) (resolve.Version, error) {
+	return s.cur.Version(ctx, vk)
+}
+func (s *switchClient) Versions(ctx context.Context, pk resolve.PackageKey) ([]resolve.Version, error) {
+	return s.cur.Versions(ctx, pk)
+}
+func (s *switchClient) Requirements(ctx context.Context, vk resolve.VersionKey) ([]resolve.RequirementVersion, error) {
+	return s.cur.Requirements(ctx, vk)
+}
+func (s *switchClient) MatchingVersions(ctx context.Context, vk resolve.VersionKey) ([]resolve.Version, error) {
+	return s.cur.MatchingVersions(ctx, vk)
+}
+
+func mavenSeq(arg sx.V) sx.V {
+	lc := buildUniverse(arg.Nth(0))
+	var roots []resolve.VersionKey
+	for _, r := range arg.Nth(1).List() {
+		roots = append(roots, resolve.VersionKey{
+			PackageKey:  resolve.PackageKey{System: resolve.Maven, Name: r.Nth(0).Str()},
+			VersionType: resolve.Concrete,
+			Version:     r.Nth(1).Str(),
+		})
+	}
+	ctx := context.Background()
+	sw := &switchClient{}
+	shared := maven.NewResolver(sw)
+	var out []sx.V
+	var refs []string
+	for _, root := range roots {
+		g0, err0 := maven.NewResolver(lc).Resolve(ctx, root)
+		ref := mavenObs(g0, err0)
+		refs = append(refs, ref.String())
+		rec := newRec(lc)
+		cnt := &countingClient{Client: rec, root: root}
+		sw.cur = cnt
+		g, err := shared.Resolve(ctx, root)
+		seq := mavenObs(g, err)
+		simple, match, less := rec.semverTables()
+		table := sx.L(sx.L(rec.vers...), sx.L(rec.vlists...), sx.L(rec.reqs...), simple, match, less)
+		out = append(out, sx.L(ref, seq, table, sx.Int((cnt.rootReqs+1)/2)))
+	}
+	// concurrent use of one resolver
+	conc := maven.NewResolver(lc)
+	const workers = 4
+	type diff struct {
+		idx int
+		obs sx.V
+	}
+	ch := make(chan []diff, workers)
+	for w := 0; w < workers; w++ {
+		go func(w int) {
+			var ds []diff
+			for k := range roots {
+				i := (k + w) % len(roots)
+				g, err := conc.Resolve(ctx, roots[i])
+				o := mavenObs(g, err)
+				if o.String() != refs[i] {
+					ds = append(ds, diff{i, o})
+				}
+			}
+			ch <- ds
+		}(w)
+	}
+	var cd []sx.V
+	for w := 0; w < workers; w++ {
+		for _, d := range <-ch {
+			cd = append(cd, sx.L(sx.Int(d.idx), d.obs))
+		}
+	}
+	return sx.L(sx.L(out...), sx.L(cd...))
+}
